@@ -150,11 +150,26 @@ theorem C18_tie_oracle_collections : oracleCollectionPrefixes = [
     ("GetAllStakerInfosAssets", "SetStakerInfos", "NativeTokenStakerInfoKeyPrefix", "NativeTokenStakerInfoKeyPrefix"),
     ("GetAllStakerListAssets", "SetStakerList", "NativeTokenStakerListKeyPrefix", "NativeTokenStakerListKeyPrefix")] := by decide
 
-/-- F-18l: the model's `codeOracleCfg` is the code's — the staker-list exporter returns the full store key, and the
-    prefix is the regenerated one. A repair (iterating a prefix store) flips the fact and breaks this theorem; the model
-    must then use `listKeyFull := false`, for which `C18_oracle_stakerlists_if_prefix_store` holds. -/
+/-- F-18l repair: the model's `codeOracleCfg` is the code's — the staker-list exporter iterates a prefix store, its key is
+    the asset id —, and the prefix is the regenerated one. Re-introducing the defect flips the fact and breaks this theorem. -/
 theorem C18_tie_oracle_stakerlist_full_key :
     oracleStakerListExportsFullKey = codeOracleCfg.listKeyFull ∧
     ("NativeTokenStakerListKeyPrefix", codeOracleCfg.listPrefix) ∈ oracleKeyPrefixes := by decide
+
+/-- pre-repair regression: `preFixOracleCfg` is the configuration with the full key -/
+theorem C18_tie_regression_oracle_stakerlist : preFixOracleCfg.listKeyFull = true ∧ preFixOracleCfg.listPrefix = codeOracleCfg.listPrefix := by
+  decide
+
+/-- F-18m / F-18n repairs: the model's `codeNstCfg` is the code's — UpdateNSTValidatorListForStaker deletes the list entry
+    with its last staker and rewrites the StakerIndex of the stakers behind a removed one -/
+theorem C18_tie_oracle_nst_removal :
+    oracleEmptyStakerListDeleted = codeNstCfg.deleteEmptyList ∧ oracleStakerIndexShifted = codeNstCfg.shiftIndexes := by decide
+
+/-- F-18j repair: ValidateOperatorAssets accepts a native-token pool without a token entry — the `nativeExempt` flag of
+    the model's `validateAssets` (= `validateAssetsWith true`) -/
+theorem C18_tie_assets_native_exempt : assetsValidateNativeExempt = true ∧ (∀ d, validateAssets d = validateAssetsWith assetsValidateNativeExempt d) := by
+  refine ⟨by decide, fun d => ?_⟩
+  have : assetsValidateNativeExempt = true := by decide
+  rw [this]; rfl
 
 end ExoVerif.Genesis
